@@ -3,6 +3,7 @@ package main
 import (
 	"bytes"
 	"encoding/binary"
+	"encoding/pem"
 	"fmt"
 	"os"
 	"path/filepath"
@@ -409,8 +410,31 @@ func c14Gen(c *Ctx) {
 			emit(ep, "byteset", "", m)
 		}
 	}
+	// files with several PEM blocks, other block types, text between and around the blocks
+	blk := func(typ string, body []byte) []byte { return pem.EncodeToMemory(&pem.Block{Type: typ, Bytes: body}) }
+	keyBlk := blk("PRIVATE KEY", randBytes(c, 120))
+	bundles := map[string][]byte{
+		"key+cert":         append(append([]byte{}, keyBlk...), pemCert...),
+		"cert+key":         append(append([]byte{}, pemCert...), keyBlk...),
+		"cert+cert":        append(append([]byte{}, pemCert...), pemOf(u.data[7])...),
+		"unknown+cert":     append(blk("X509 CRL", randBytes(c, 40)), pemCert...),
+		"unknown+unknown":  append(blk("FOO", []byte{1}), blk("BAR", []byte{2})...),
+		"three-keys":       append(append(append([]byte{}, keyBlk...), keyBlk...), keyBlk...),
+		"text+cert+text":   append(append([]byte("Bag Attributes\n  friendlyName: x\n"), pemCert...), []byte("\ntrailing text\n")...),
+		"key+garbage":      append(append([]byte{}, keyBlk...), []byte("-----BEGIN CERTIFICATE-----\nnot base64 at all\n")...),
+		"empty-block+cert": append(blk("CERTIFICATE", nil), pemCert...),
+		"headers+cert":     append(pem.EncodeToMemory(&pem.Block{Type: "RSA PRIVATE KEY", Headers: map[string]string{"Proc-Type": "4,ENCRYPTED"}, Bytes: randBytes(c, 64)}), pemCert...),
+	}
+	for name, b := range bundles {
+		for _, ep := range []string{"readkey", "readcert"} {
+			emit(ep, "bundle/"+name, "", b)
+			emit(ep, "bundle/"+name+"/cut", "", b[:len(b)-1-c.Rng.Intn(len(b)/2)])
+		}
+	}
 	if kb, err := os.ReadFile(filepath.Join(c.RepoDir, "authenticode/testdata/db.key")); err == nil {
 		emit("readkey", "valid-key", "", kb)
+		emit("readkey", "bundle/cert+real-key", "", append(append([]byte{}, pemCert...), kb...))
+		emit("readcert", "bundle/real-key+cert", "", append(append([]byte{}, kb...), pemCert...))
 		for cut := 0; cut < len(kb); cut += 1 + len(kb)/30 {
 			emit("readkey", "truncated", "", kb[:cut])
 		}
@@ -419,7 +443,7 @@ func c14Gen(c *Ctx) {
 
 func init() {
 	register("C14", &PropDef{
-		Rule:   "17 decoder entry points (ReadSignatureDatabase/List/Data, ReadEFIVariableAuthencation2, ReadWinCertificate(UEFIGUID), EFILoadOption.Unmarshal + Format, ParseDevicePath + Format, ParseUtf16Var, Efistring, boot order, GetSupportedSignatures, ParseEfivars, StringToGUID, BytesToGUID, ReadKey, ReadCert) run in a sandboxed worker process (address-space limit, per-input timeout, runtime.MemStats.TotalAlloc delta). Inputs: every size field of lists / descriptors / certificates swept over {0,1,7,8,15,16,17,23,24,27,28,29,2^16,2^24,2^31,2^32-1,...}, consistent headers promising one 2 GiB signature or 2^12..2^26 signatures of the list's own size, every truncation point, captured and generated load options cut everywhere / without end node / byte-mutated, every device-path (type, subtype) with 0..38 bytes of data, every partition-format byte, UTF-16 edge cases, random short inputs, PEM material cut and mutated. Non-trivial: non-empty input; distinct = distinct (entry point, input). Static part: the call-graph certificate (see the Lean obligations).",
+		Rule:   "17 decoder entry points (ReadSignatureDatabase/List/Data, ReadEFIVariableAuthencation2, ReadWinCertificate(UEFIGUID), EFILoadOption.Unmarshal + Format, ParseDevicePath + Format, ParseUtf16Var, Efistring, boot order, GetSupportedSignatures, ParseEfivars, StringToGUID, BytesToGUID, ReadKey, ReadCert) run in a sandboxed worker process (address-space limit, per-input timeout, runtime.MemStats.TotalAlloc delta). Inputs: every size field of lists / descriptors / certificates swept over {0,1,7,8,15,16,17,23,24,27,28,29,2^16,2^24,2^31,2^32-1,...}, consistent headers promising one 2 GiB signature or 2^12..2^26 signatures of the list's own size, every truncation point, captured and generated load options cut everywhere / without end node / byte-mutated, every device-path (type, subtype) with 0..38 bytes of data, every partition-format byte, UTF-16 edge cases, random short inputs, PEM material cut and mutated, files with several PEM blocks (key+certificate in both orders, unknown block types, headers, text around the blocks, empty blocks). Non-trivial: non-empty input; distinct = distinct (entry point, input). Static part: the call-graph certificate (see the Lean obligations).",
 		Assume: []string{"allocation budget 64 bytes per input byte + 2 MiB; time limit 3 s per input", "wall-clock time and resident memory are runtime facts measured on the sampled inputs only"},
 		Eval:   c14Eval, Gen: c14Gen,
 	})
